@@ -4,7 +4,6 @@ package main
 // outputs and state deltas are written as a Coq file that the model checks.
 
 import (
-	"time"
 	"encoding/json"
 	"fmt"
 	"os"
@@ -12,6 +11,7 @@ import (
 	"reflect"
 	"sort"
 	"strings"
+	"time"
 
 	"github.com/mattn/anko/env"
 )
@@ -704,6 +704,12 @@ func c12Directed() [][]c12Op {
 
 // c12InvalidRequests: requests outside the model's value universe (the zero reflect.Value as the value to bind), judged on the
 // implementation alone by the property's own rule: an error, every scope unchanged, never a panic - now or at a later read
+// c12BadLookup answers every name with the same non-value and no error
+type c12BadLookup struct{ v reflect.Value }
+
+func (l c12BadLookup) Get(string) (reflect.Value, error) { return l.v, nil }
+func (l c12BadLookup) Type(string) (reflect.Type, error) { return nil, fmt.Errorf("no such type") }
+
 func c12InvalidRequests() []map[string]interface{} {
 	var out []map[string]interface{}
 	bad := func(why string) { out = append(out, map[string]interface{}{"case": -1, "why": why}) }
@@ -715,47 +721,81 @@ func c12InvalidRequests() []map[string]interface{} {
 		}()
 		f()
 	}
-	for _, how := range []string{"DefineValue", "DefineGlobalValue", "SetValue", "SetValue through a child"} {
-		how := how
-		guard(how+" with the zero reflect.Value", func() {
+	for _, inv := range []struct {
+		name string
+		v    reflect.Value
+	}{{"the zero reflect.Value", reflect.Value{}}, {"a reflect.Value taken from an unexported struct field", reflect.ValueOf(&struct{ x int }{x: 3}).Elem().Field(0)}} {
+		inv := inv
+		for _, how := range []string{"DefineValue", "DefineGlobalValue", "SetValue", "SetValue through a child"} {
+			how := how
+			guard(how+" with "+inv.name, func() {
+				root := env.NewEnv()
+				root.Define("a", int64(1))
+				child := root.NewEnv()
+				child.Define("b", int64(2))
+				var err error
+				switch how {
+				case "DefineValue":
+					err = child.DefineValue("z", inv.v)
+				case "DefineGlobalValue":
+					err = child.DefineGlobalValue("z", inv.v)
+				case "SetValue":
+					err = child.SetValue("b", inv.v)
+				default:
+					err = child.SetValue("a", inv.v)
+				}
+				if err == nil {
+					bad(how + " accepts " + inv.name + " without an error")
+				}
+				for _, e := range []*env.Env{root, child} {
+					for _, sym := range []string{"a", "b", "z"} {
+						e.Get(sym)
+						e.GetValue(sym)
+						e.Addr(sym)
+						e.GetEnvFromPath([]string{sym})
+					}
+					_ = e.String()
+					e.Copy()
+					e.DeepCopy()
+					e.GetValueSymbols()
+				}
+				if v, _ := child.Get("a"); v != int64(1) {
+					bad(how + " with " + inv.name + " changed the binding of a: " + fmt.Sprint(v))
+				}
+				if v, _ := child.Get("b"); v != int64(2) {
+					bad(how + " with " + inv.name + " changed the binding of b: " + fmt.Sprint(v))
+				}
+				if _, err := child.Get("z"); err == nil {
+					bad(how + " with " + inv.name + " created a binding")
+				}
+			})
+		}
+	}
+	// an external lookup that answers with something that is no value: the name counts as not found there, nothing panics
+	for _, inv := range []struct {
+		name string
+		v    reflect.Value
+	}{{"the zero reflect.Value", reflect.Value{}}, {"a reflect.Value taken from an unexported struct field", reflect.ValueOf(&struct{ x int }{x: 3}).Elem().Field(0)}} {
+		inv := inv
+		guard("an external lookup answering with "+inv.name, func() {
 			root := env.NewEnv()
 			root.Define("a", int64(1))
 			child := root.NewEnv()
-			child.Define("b", int64(2))
-			var err error
-			switch how {
-			case "DefineValue":
-				err = child.DefineValue("z", reflect.Value{})
-			case "DefineGlobalValue":
-				err = child.DefineGlobalValue("z", reflect.Value{})
-			case "SetValue":
-				err = child.SetValue("b", reflect.Value{})
-			default:
-				err = child.SetValue("a", reflect.Value{})
+			child.SetExternalLookup(c12BadLookup{inv.v})
+			for _, sym := range []string{"a", "q"} {
+				child.Get(sym)
+				child.GetValue(sym)
+				child.Addr(sym)
+				child.GetEnvFromPath([]string{sym})
 			}
-			if err == nil {
-				bad(how + " accepts the zero reflect.Value without an error")
+			_ = child.String()
+			child.Copy()
+			child.DeepCopy()
+			if v, err := child.Get("a"); err != nil || v != int64(1) {
+				bad("behind an external lookup answering with " + inv.name + " the parent's binding of a reads " + fmt.Sprint(v, err))
 			}
-			for _, e := range []*env.Env{root, child} {
-				for _, sym := range []string{"a", "b", "z"} {
-					e.Get(sym)
-					e.GetValue(sym)
-					e.Addr(sym)
-					e.GetEnvFromPath([]string{sym})
-				}
-				_ = e.String()
-				e.Copy()
-				e.DeepCopy()
-				e.GetValueSymbols()
-			}
-			if v, _ := child.Get("a"); v != int64(1) {
-				bad(how + " with the zero reflect.Value changed the binding of a: " + fmt.Sprint(v))
-			}
-			if v, _ := child.Get("b"); v != int64(2) {
-				bad(how + " with the zero reflect.Value changed the binding of b: " + fmt.Sprint(v))
-			}
-			if _, err := child.Get("z"); err == nil {
-				bad(how + " with the zero reflect.Value created a binding")
+			if _, err := child.Get("q"); err == nil {
+				bad("an external lookup answering with " + inv.name + " makes an unbound name defined")
 			}
 		})
 	}
